@@ -10,15 +10,16 @@ import (
 // C19 (history part): the exit allow list follows the dynamic routes through
 // every sequence of route-management operations.
 
-var c19Nets = [2]string{"10.1.0.0/16", "10.1.1.0/24"}
+// the third network shares its base address with the first (different prefix length)
+var c19Nets = [3]string{"10.1.0.0/16", "10.1.1.0/24", "10.1.0.0/24"}
 
 func harnessC19History() {
 	a := c16Agent()
 	a.cfg = &config.Config{}
 	a.routeMgr = routing.NewManager(a.id)
-	var present [2]bool
+	var present [3]bool
 	for step := 0; step < c19Steps; step++ {
-		k := verif_choose(2)
+		k := verif_choose(3)
 		if verif_nondet_bool() {
 			_, err := a.ManageRoute("add", c19Nets[k], verif_nondet_u16())
 			verif_assert(err == nil, "C19/add-succeeds")
@@ -32,7 +33,7 @@ func harnessC19History() {
 	verif_reach("C19/history")
 	// probe an arbitrary address in 10.1.0.0/15 (covers inside/outside both networks)
 	ip := net.IP{10, verif_nondet_u8() & 1, verif_nondet_u8(), verif_nondet_u8()}
-	want := (present[0] && ip[1] == 1) || (present[1] && ip[1] == 1 && ip[2] == 1)
+	want := (present[0] && ip[1] == 1) || (present[1] && ip[1] == 1 && ip[2] == 1) || (present[2] && ip[1] == 1 && ip[2] == 0)
 	got := a.exitHandler != nil && a.exitHandler.IsAllowedForVerif(ip)
 	verif_assert(got == want, "C19/allow-list-equals-present-routes")
 	n := 0
